@@ -88,6 +88,16 @@ def _py_hash(v):
     return hash(v)
 
 
+class GenList(list):
+    """the values a generator of the evaluated code yields (computed
+    eagerly); next() takes them from the front, as a generator would"""
+
+    def __next__(self):
+        if not self:
+            raise StopIteration
+        return self.pop(0)
+
+
 class ClosureEnv(dict):
     """local names of a nested function over the defining environment"""
 
@@ -529,7 +539,7 @@ class Evaluator(object):
         if fd is None:
             self.err(node, 'iteration over an abstract object')
         ret, ys = self.call(fd, [], self_obj=obj)
-        return ys if is_generator(fd) else ret
+        return GenList(ys) if is_generator(fd) else ret
 
     def _in_hook(self, hook, obj):
         """is `hook` already running (a store inside __setattr__ itself
@@ -916,7 +926,7 @@ class Evaluator(object):
         finally:
             self.yielded = saved
             self.module, self.clsname = saved_ctx
-        return ys if gen else ret
+        return GenList(ys) if gen else ret
 
     def as_callable(self, v):
         """closures handed to python stand-ins (key=lambda ...) become
@@ -928,7 +938,7 @@ class Evaluator(object):
         if isinstance(v, tuple) and v and v[0] == 'method':
             def bound(*a, **k):
                 ret, ys = self.call(v[1], list(a), k, self_obj=v[2])
-                return ys if is_generator(v[1]) else ret
+                return GenList(ys) if is_generator(v[1]) else ret
             return bound
         return v
 
@@ -1088,7 +1098,7 @@ class Evaluator(object):
         if isinstance(f, tuple) and f[0] == 'method':
             ret, ys = self.call(f[1], args, kwargs, self_obj=f[2])
             if is_generator(f[1]):
-                return ys
+                return GenList(ys)
             return ret
         if isinstance(f, Obj):
             cm = self.class_methods.get(f.__dict__['_cls'], {})
@@ -1098,7 +1108,7 @@ class Evaluator(object):
         if isinstance(f, tuple) and f[0] == 'method':
             ret, ys = self.call(f[1], args, kwargs, self_obj=f[2])
             if is_generator(f[1]):
-                return ys
+                return GenList(ys)
             return ret
         if isinstance(f, tuple) and f[0] == 'closure':
             return self.call_closure(f, args, kwargs, e)
@@ -1135,7 +1145,7 @@ class Evaluator(object):
                     f.name in self.module.functions:
                 fd = self.module.functions[f.name]
                 ret, ys = self.call(fd, args, kwargs)
-                return ys if is_generator(fd) else ret
+                return GenList(ys) if is_generator(fd) else ret
             if self.instantiate_classes and f.name in self.class_methods:
                 obj = Obj(f.name)
                 init = self.class_methods[f.name].get('__init__')
@@ -1153,7 +1163,7 @@ class Evaluator(object):
                     fd = other.functions[short]
                     self.context_of.setdefault(id(fd), (other, None))
                     ret, ys = self.call(fd, args, kwargs)
-                    return ys if is_generator(fd) else ret
+                    return GenList(ys) if is_generator(fd) else ret
             pure = PURE_STDLIB.get((f.module, short))
             if pure is not None:
                 args = [self.iterate(a, e) if isinstance(a, Obj) else
